@@ -530,6 +530,18 @@ impl Scen2 {
                     let x2 = ArrayD::from_shape_vec(IxDyn(&[1, k]), qx.clone()).unwrap();
                     let y2 = ArrayD::from_shape_vec(IxDyn(&[1, k]), qy.clone()).unwrap();
                     res.push(("rank-2 queries", interp.interp_array(&x2, &y2).map(|a| a.iter().map(|v| v.to_val()).collect()).map_err(|_| ())));
+                    if k >= 4 && k % 2 == 0 {
+                        // (2, k/2) query arrays, x row-major and y column-major: logical order is what counts
+                        use ndarray::ShapeBuilder;
+                        let xc = ArrayD::from_shape_vec(IxDyn(&[2, k / 2]), qx.clone()).unwrap();
+                        let yc = ArrayD::from_shape_vec(IxDyn(&[2, k / 2]), qy.clone()).unwrap();
+                        let mut yf = ArrayD::from_elem(IxDyn(&[2, k / 2]).f(), qy[0]);
+                        yf.assign(&yc);
+                        res.push(("rank-2 queries, y in Fortran order", interp.interp_array(&xc, &yf).map(|a| a.iter().map(|v| v.to_val()).collect()).map_err(|_| ())));
+                        let mut xf = ArrayD::from_elem(IxDyn(&[2, k / 2]).f(), qx[0]);
+                        xf.assign(&xc);
+                        res.push(("rank-2 queries, x in Fortran order", interp.interp_array(&xf, &yc).map(|a| a.iter().map(|v| v.to_val()).collect()).map_err(|_| ())));
+                    }
                     for (name, r) in res {
                         match (r, any_oob) {
                             (Ok(v), false) => if v != flat { return Some(format!("2-D interp_array ({}) returns other values than interp for the same queries", name)); },
